@@ -1,4 +1,5 @@
 import Cvss.Model.Obj
+import Cvss.Spec.Rating
 /-!
 # Driver: score, rating and float operations
 (`F` scores, `R` rating, `U` raw float primitive). Returns `(diff?, violated ids, detail, tag)`.
@@ -40,7 +41,11 @@ def judgeScoreOp (op : List String) (impl : String) : Option (Option String × L
     match rating ver (parseHexN x) with
     | some (s, e) =>
       let m := s!"{hexB s} {e.code}"
-      some ((if m = impl then none else some m), [], "", "R" ++ ver)
+      -- Spec: the qualitative scale applied to the exact value of the bit pattern (nothing prescribed for NaN)
+      let sp := Spec.ratingOfBits (parseHexN x)
+      let want := if sp.2 == Spec.ratingOk then some s!"{hexB sp.1} 0" else if sp.2 == Spec.ratingOutOfBounds then some "- 5" else none
+      let viol := match want with | some w => if w = impl then [] else ["C15"] | none => []
+      some ((if m = impl then none else some m), viol, (match want with | some w => s!"want {w}" | none => ""), "R" ++ ver)
     | none => none
   | _ => none
 end Driver
